@@ -233,6 +233,19 @@ SPECS['C09'] = {
     'budget': {'quick': 120, 'thorough': 600},
 }
 
+SPECS['C17'] = {
+    'level': 'exploration',
+    'technique': 'exhaustive enumeration of operand / parameter alphabets through the real SM9 code, every result compared with a big-integer reference model (py/sm9_model.py: plain polynomial Fp12 = Fp[w]/(w^12+2), definition-level R-ate pairing, validated on the GM/T 0044.5 worked example) run as a co-process; scripted nonces make signatures, ciphertexts and exchanged keys exactly predictable; complete single-bit neighbourhoods of signatures and ciphertexts for the negative clauses',
+    'claim': 'Over the stated alphabets every Fp, Fn, Fp2, Fp4, Fp12, G1, G2 operation returns the model value; e([a]P1,[b]P2) equals the model pairing, equals e(P1,P2)^(ab), is != 1 and has order N for all scalar pairs of the tier; H1 / hash-to-range agree; extracted keys, signatures (scripted r), ciphertexts, KEM keys and exchanged keys equal the model values, honest signatures verify and ciphertexts round-trip; another identity, another message, another master key, a negated S and every single-bit change of signature or ciphertext are rejected; both exchange parties derive the same key; key files of secrets with leading zero octets read back.',
+    'trusted': 'py/sm9_model.py (validated by its --selftest on the standard\'s worked example, shares no code or algorithmic structure with src/sm9_z256.c); Python hashlib SM3 (OpenSSL)',
+    'rule': 'fp: 256 (thorough 625) limb-alphabet values + p-3..p-1, (p-1)/2, (p+1)/2: all pairs x {add,sub,mul}, all x {neg,dbl,tri,haf,sqr,inv} and x 17 exponents; fn subset grid; hash-to-range 6 x 17 Ha values; fp2: 64 elements, pairs x {add,sub,mul,mul_u,div}, 10 unary ops, mul_fp; fp4: 24 shapes, all pairs x 4 ops, 11 unary, mul_fp, mul_fp2; fp12: 36 shapes, pairs x 3 ops, 9 unary ops incl. 4 Frobenius maps, pow; G1/G2: 6 points (incl. infinity, -P, [N-1]P) all pairs add/sub/dbl, 17 scalars (0,1,2,3,2^128,2^255,2^256-1,N-2..N+2,...) x points mul / mul_generator; pairing: 5x5 (thorough 7x7) scalar pairs; schemes: master secrets {1,2,N-1,example} x identity lengths {1,2,5,31,32,33,64,8191} x message lengths {0,1,20,55,56,63,64,65,119,128,1000} x nonces {1,2,N-1,example,typical} (full cross on the short axes), plaintexts {0,1,31,32,33,100,255}, key lengths {1,16,32,33,64,100}; all bit flips of signature and ciphertext DER for the short cases.',
+    'bound': {'quick': '4-limb alphabet over 4 limb values; 5x5 pairings', 'thorough': '5 limb values; 7x7 pairings; bit-flip neighbourhoods for every nonce'},
+    'assumptions': ['values outside the alphabets are not covered', 'the model is the specification of "integer mathematics"; SM9 encryption uses the library\'s HMAC-SM3 tag (the standard\'s MAC is SM3(C2||K2): recorded as an observation, not judged)'],
+    'quick': [J('c17', 'fast', srcs=TLSSRC, libs=['-lpthread', '-ldl', '-lm'], deadline=150)],
+    'thorough': [J('c17', 'fast', srcs=TLSSRC, libs=['-lpthread', '-ldl', '-lm'], deadline=1500), J('c17', 'asan', srcs=TLSSRC, libs=['-lpthread', '-ldl', '-lm'], deadline=900, env={'VH_TIER': 'quick'})],
+    'budget': {'quick': 170, 'thorough': 1700},
+}
+
 SPECS['C18'] = {
     'level': 'fault_enumeration',
     'technique': 'exhaustive entropy-fault enumeration: for every randomised operation and every handshake role, one implementation run per entropy-draw index with that draw failing, plus stream-pair (A/A, A/B) and long same-stream sequence runs, under the scripted getentropy shim',
@@ -258,4 +271,18 @@ SPECS['C19'] = {
     'quick': [J('c19', 'fast', srcs=TLSSRC, libs=WRAPS)],
     'thorough': [J('c19', 'fast', srcs=TLSSRC, libs=WRAPS)],
     'budget': {'quick': 170, 'thorough': 600},
+}
+
+VSWRAP = ['-Wl,--wrap=memcpy', '-Wl,--wrap=memset', '-Wl,--wrap=memmove', '-Wl,--wrap=free', '-lpthread', '-ldl', '-lm']
+SPECS['C20'] = {
+    'level': 'model_checking',
+    'technique': 'stateless model checking of the real code under a controlled scheduler: every load/store of the (TSan-instrumented, runtime-less) library reports to the harness, a footprint pass finds conflict granules (written by one task, touched by another / writable statics), and all schedules with at most k preemptions at task start, end, blocking and conflict-granule accesses are enumerated with a fixpoint on newly found conflicts; plus a separate free-running pass of the same task bodies under the real ThreadSanitizer',
+    'claim': 'For every unordered pair (thorough: also triples of the six cheapest) of the 15 workload operations, each on its own objects and its own entropy stream, every schedule within the preemption bound gives each task exactly the outputs it produces alone; no memory granule is written by one task and accessed by another and no library static is written at all (conflict set empty => no data race on library state in any interleaving of these tasks); the free-running ThreadSanitizer pass reports no race and the same outputs.',
+    'trusted': 'clang -fsanitize=thread instrumentation reports every library load/store (memcpy/memset/memmove through --wrap with -fno-builtin); sequential consistency; the hand-off scheduler; libc internals (stdio locks) are outside',
+    'rule': 'operations: hash (SM3, SHA-256, SHA-512), HMAC+PBKDF2, SM4 CBC/CTR/GCM, ZUC, SM2 keygen+sign+verify, SM2 encrypt+ECDH, X.509 sign+verify (+error path), CMS sign+verify+encrypt+decrypt, TLS record protect/unprotect (CBC, GCM), malformed-input decoding (error path), SM9 sign+verify, PKCS#8 encrypt/decrypt, TLCP / TLS 1.2 / TLS 1.3 handshake (client task + server task over a private pipe pair). distinct = (combination, schedule prefix); states = choice points + schedules, transitions = choice points.',
+    'bound': {'quick': 'pairs, preemptions <= 1 (0 for two concurrent handshakes = 4 tasks: all run-to-block schedules)', 'thorough': 'pairs with preemptions <= 2 (<= 1 when a handshake is involved), triples of cheap operations with preemptions <= 2'},
+    'assumptions': ['at most 3 (4 with handshake pairs) tasks in the exhaustive part; 16-thread behaviour only through the free-running pass', 'weak-memory reorderings beyond what ThreadSanitizer models are out of scope'],
+    'quick': [J('c20', 'vsched', srcs=TLSSRC, libs=VSWRAP, deadline=150), J('c20', 'tsan', srcs=TLSSRC, libs=['-lpthread', '-ldl', '-lm'], deadline=150)],
+    'thorough': [J('c20', 'vsched', srcs=TLSSRC, libs=VSWRAP, deadline=1500), J('c20', 'tsan', srcs=TLSSRC, libs=['-lpthread', '-ldl', '-lm'], deadline=900)],
+    'budget': {'quick': 170, 'thorough': 1700},
 }
